@@ -175,7 +175,9 @@ impl Response {
                 break;
             } else {
                 safe_assert(line.len() >= 2)?;
-                let line_without_crlf = &line[0..line.len() - 2];
+                let line_without_crlf = line
+                    .get(0..line.len() - 2)
+                    .ok_or(ResponseError::Response)?;
                 let line_parts: Vec<&str> = line_without_crlf.splitn(2, ':').collect();
                 headers.add(HeaderType::from(line_parts[0]), line_parts[1].trim_start());
             }
